@@ -32,17 +32,17 @@ import (
 func init() {
 	domains["loadrep"] = domain{runLoadRep,
 		"wide shallow include trees (2..6 files, most of them siblings included by the root, one file under several " +
-			"namespaces, diamonds, two variable names shared by all files), each loaded 40 (quick) / 150 (thorough) times in " +
+			"namespaces, diamonds, two variable names shared by all files), each loaded 40 (quick) / 200 (thorough) times in " +
 			"one process; every load must give the same dump and the dump must equal the model's canonical merge; " +
 			"distinct = tree shape with at least two sibling includes or one file included twice and a name defined at two sites"}
 	domains["loaddeep"] = domain{runLoadDeep,
 		"the include trees of domain load (depth <= 3 quick / 4 thorough, every include option), three variable names, " +
-			"each loaded 25 (quick) / 80 (thorough) times in one process; all dumps equal and equal to the model; distinct as in load"}
+			"each loaded 25 (quick) / 100 (thorough) times in one process; all dumps equal and equal to the model; distinct as in load"}
 	domains["load"] = domain{runLoad,
 		"include trees of 2..6 files (depth <= 3 quick / 4 thorough; diamonds, one file under several namespaces, " +
 			"cycles, missing/optional files, version/dotenv errors) with every include option and task attribute drawn " +
 			"independently and small shared pools of task, namespace, alias and variable names; each tree is loaded 20 " +
-			"(quick) / 80 (thorough) times in one process; distinct = tree shape (include edges with options, task " +
+			"(quick) / 100 (thorough) times in one process; distinct = tree shape (include edges with options, task " +
 			"names per file) having at least one include and one task or variable name defined at two sites"}
 }
 
@@ -1192,20 +1192,20 @@ func hasColonRef(d *ldCase) bool {
 }
 
 func runLoad(c *Ctx) {
-	runLoadWith(c, c.Pick(260, 1500), c.Pick(20, 80),
+	runLoadWith(c, c.Pick(260, 2500), c.Pick(20, 100),
 		ldGenCfg{maxDepth: c.Pick(3, 4), pRootParent: 0, pExtraParent: 22, pTwice: 18, keyPool: 5, pInject: 25, refsMonitor: true})
 }
 
 // runLoadDeep (property C09): the trees of domain load, without the C08 reference monitor.
 func runLoadDeep(c *Ctx) {
-	runLoadWith(c, c.Pick(200, 1000), c.Pick(25, 80),
+	runLoadWith(c, c.Pick(200, 1500), c.Pick(25, 100),
 		ldGenCfg{maxDepth: c.Pick(3, 4), pRootParent: 0, pExtraParent: 25, pTwice: 22, keyPool: 3, pInject: 20})
 }
 
 // runLoadRep (property C09): wide, shallow trees — many sibling includes of one parent,
 // one file under several namespaces, diamonds, few variable names — loaded more often.
 func runLoadRep(c *Ctx) {
-	runLoadWith(c, c.Pick(110, 500), c.Pick(40, 150),
+	runLoadWith(c, c.Pick(110, 800), c.Pick(40, 200),
 		ldGenCfg{maxDepth: 2, pRootParent: 70, pExtraParent: 30, pTwice: 35, keyPool: 2, pInject: 8})
 }
 
